@@ -13,7 +13,9 @@ import (
 	"verif/internal/evid"
 	"verif/props/c01"
 	"verif/props/c06"
+	"verif/props/c11"
 	"verif/props/c12"
+	"verif/props/c13"
 )
 
 type prop struct {
@@ -25,7 +27,9 @@ type prop struct {
 var props = map[string]prop{
 	"C01": {"exploration", c01.Run, c01.Replay},
 	"C06": {"model_checking", c06.Run, c06.Replay},
+	"C11": {"exploration", c11.Run, c11.Replay},
 	"C12": {"exploration", c12.Run, c12.Replay},
+	"C13": {"exploration", c13.Run, c13.Replay},
 }
 
 var ballast []byte
